@@ -1,0 +1,149 @@
+//! Verification hooks. This module only exists under `--cfg mscript_verif`;
+//! regular builds never see it.
+//!
+//! * `MSCRIPT_VERIF_GC=<seed>:<ppm>` — before each instruction, a private
+//!   xorshift stream decides (with probability `ppm` / 1_000_000) whether to
+//!   force a garbage collection.
+//! * `MSCRIPT_VERIF_STATS=<path>` — when the interpreter thread exits, write
+//!   the number of executed instructions, forced collections and a histogram
+//!   of executed opcodes to `path`.
+//! * `MSCRIPT_VERIF_DUMP=<path>` — append the instruction streams (function,
+//!   opcode, arguments) of every loaded file to `path`.
+//!
+//! Without any of these variables the hooks do nothing.
+
+use std::cell::RefCell;
+use std::fmt::Write as _;
+use std::io::Write as _;
+
+use crate::instruction::Instruction;
+
+struct State {
+    rng: u64,
+    ppm: u64,
+    instructions: u64,
+    forced: u64,
+    opcodes: [u64; 256],
+    max_depth: usize,
+    stats_path: Option<String>,
+}
+
+impl State {
+    fn from_env() -> Self {
+        let (rng, ppm) = std::env::var("MSCRIPT_VERIF_GC")
+            .ok()
+            .and_then(|spec| {
+                let (seed, ppm) = spec.split_once(':')?;
+                Some((seed.parse::<u64>().ok()?, ppm.parse::<u64>().ok()?))
+            })
+            .unwrap_or((0, 0));
+
+        Self {
+            // xorshift must not start at zero.
+            rng: rng.wrapping_mul(0x9E37_79B9_7F4A_7C15) | 1,
+            ppm,
+            instructions: 0,
+            forced: 0,
+            opcodes: [0; 256],
+            max_depth: 0,
+            stats_path: std::env::var("MSCRIPT_VERIF_STATS").ok(),
+        }
+    }
+
+    fn next(&mut self) -> u64 {
+        let mut x = self.rng;
+        x ^= x << 13;
+        x ^= x >> 7;
+        x ^= x << 17;
+        self.rng = x;
+        x
+    }
+}
+
+impl Drop for State {
+    fn drop(&mut self) {
+        let Some(ref path) = self.stats_path else {
+            return;
+        };
+
+        let mut out = format!(
+            "instructions {}\nforced_gc {}\nmax_depth {}\n",
+            self.instructions, self.forced, self.max_depth
+        );
+
+        for (opcode, count) in self.opcodes.iter().enumerate() {
+            if *count != 0 {
+                let _ = writeln!(out, "op {opcode} {count}");
+            }
+        }
+
+        if let Ok(mut file) = std::fs::OpenOptions::new()
+            .create(true)
+            .append(true)
+            .open(path)
+        {
+            let _ = file.write_all(out.as_bytes());
+        }
+    }
+}
+
+thread_local! {
+    static STATE: RefCell<State> = RefCell::new(State::from_env());
+}
+
+/// Called at the top of the interpreter's instruction loop.
+pub(crate) fn on_instruction(opcode: u8, depth: usize) {
+    let collect = STATE
+        .try_with(|state| {
+            let mut state = state.borrow_mut();
+            state.instructions += 1;
+            state.opcodes[opcode as usize] += 1;
+            if depth > state.max_depth {
+                state.max_depth = depth;
+            }
+
+            if state.ppm == 0 {
+                return false;
+            }
+
+            let collect = state.ppm >= 1_000_000 || state.next() % 1_000_000 < state.ppm;
+            if collect {
+                state.forced += 1;
+            }
+            collect
+        })
+        .unwrap_or(false);
+
+    if collect {
+        gc::force_collect();
+    }
+}
+
+/// Called whenever a file's functions become part of the running program.
+pub(crate) fn dump_file<'a>(
+    path: &str,
+    functions: impl Iterator<Item = (&'a str, &'a [Instruction])>,
+) {
+    let Ok(dump_path) = std::env::var("MSCRIPT_VERIF_DUMP") else {
+        return;
+    };
+
+    let mut functions: Vec<_> = functions.collect();
+    functions.sort_by(|a, b| a.0.cmp(b.0));
+
+    let mut out = format!("file {path:?}\n");
+    for (name, instructions) in functions {
+        let _ = writeln!(out, " function {name:?}");
+        for instruction in instructions {
+            let _ = writeln!(out, "  {} {:?}", instruction.id, instruction.arguments);
+        }
+    }
+
+    if let Ok(mut file) = std::fs::OpenOptions::new()
+        .create(true)
+        .append(true)
+        .open(dump_path)
+    {
+        let _ = file.write_all(out.as_bytes());
+    }
+}
